@@ -37,7 +37,12 @@ def generate(rng, focus, tier="quick"):
         plan["cfg"]["long_only"] = True
         if r < 0.06 and cfg["alpha"]["kind"] == "fixed":
             a0 = sorted(cfg["alpha"]["weights"])[0]
-            cfg["alpha"]["weights"][a0] = -abs(cfg["alpha"]["weights"][a0] or 0.3)
+            cfg["alpha"]["weights"][a0] = rng.choice([-abs(cfg["alpha"]["weights"][a0] or 0.3), -1e-12, -5e-9,
+                                                      0.3 - 0.1 - 0.2, -1e-7])
+            if len(cfg["alpha"]["weights"]) == 1 or all(v <= 0 for v in cfg["alpha"]["weights"].values()):
+                others = [a for a in sl.rb_assets(cfg) if a != a0]
+                if others:
+                    cfg["alpha"]["weights"][others[0]] = 0.5
             plan["bad"] = "neg_weight_long_only"
         else:
             cfg["cash_buffer"] = rng.choice([-0.01, 1.01, 2.0, -1.0])
